@@ -123,6 +123,16 @@ def prove(hyps, goal, timeout_ms=None, use_cvc5=True, plain=False, cheap=False):
     inst = instantiate.Inst()
     items = inst.prepare_goal(goal)
     backend = "z3+inst"
+    if len(items) > 1:
+        # first all conjuncts at once (one instantiation, one query); only a failure is analysed conjunct by conjunct
+        extra, conj, sks = [], [], []
+        shared_extra = all(len(it[0]) == len(items[0][0]) and all(a.eq(b) for a, b in zip(it[0], items[0][0])) for it in items)
+        if shared_extra:
+            allitem = (items[0][0], z3.And([it[1] for it in items]), [c for it in items for c in it[2]])
+            ghyps, g, ninst = instantiate.ground_query(hyps, allitem, inst)
+            r, s = _check(ghyps + [z3.Not(g)], tmo)
+            if r == z3.unsat:
+                return "proved", None, backend, time.time() - t0
     for item in items:
         ghyps, g, ninst = instantiate.ground_query(hyps, item, inst)
         r, s = _check(ghyps + [z3.Not(g)], tmo)
